@@ -1259,6 +1259,73 @@ fn family_parameter_types(run: &Run, cnt: &Cnt) -> u64 {
   models
 }
 
+/// Boxed contexts nested in boxed contexts: the entries of the inner context are not visible to the entries that follow the
+/// inner context in the outer one, also when they are named like an input, an outer entry or a parameter.
+fn family_nested_contexts(run: &Run, cnt: &Cnt) -> u64 {
+  let s = |t: &str| Expr::lit(t);
+  let inner_plain = Expr::Context(vec![(Some("a".to_string()), None, s("\"inner\""))]);
+  let inner_result = Expr::Context(vec![(Some("a".to_string()), None, s("\"inner\"")), (None, None, s("a + \"!\""))]);
+  let inner_two = Expr::Context(vec![(Some("b".to_string()), None, s("\"B\"")), (Some("a".to_string()), None, s("b + \"A\""))]);
+  // (decision name, logic, expected rendering for a = "x", b = "y")
+  let cases: Vec<(&str, Expr, &str)> = vec![
+    ("N1", Expr::Context(vec![(Some("p".to_string()), None, inner_plain.clone()), (Some("q".to_string()), None, s("a + b"))]), "{p: {a: \"inner\"}, q: \"xy\"}"),
+    ("N2", Expr::Context(vec![(Some("p".to_string()), None, inner_result.clone()), (Some("q".to_string()), None, s("a + b"))]), "{p: \"inner!\", q: \"xy\"}"),
+    ("N3", Expr::Context(vec![(Some("p".to_string()), None, inner_two.clone()), (None, None, s("a + b + p.a"))]), "\"xyBA\""),
+    ("N4", Expr::Context(vec![(Some("a".to_string()), None, s("\"outer\"")), (Some("p".to_string()), None, inner_plain.clone()), (None, None, s("a + b"))]), "\"outery\""),
+    (
+      "N5",
+      Expr::Context(vec![(Some("p".to_string()), None, Expr::Context(vec![(Some("q".to_string()), None, inner_two.clone()), (None, None, s("q.a + a"))])), (None, None, s("p + b"))]),
+      "\"BAxy\"",
+    ),
+    ("N6", Expr::lit("G(b)"), "\"y\""),
+  ];
+  let mut m = Model::new("https://verif/c04n", "c04n");
+  for n in ["a", "b"] {
+    m.inputs.push(dmn::Input { name: n.into(), type_ref: "string".into() });
+  }
+  // a knowledge model whose body nests a context that has an entry named like the parameter
+  m.bkms.push(dmn::Bkm {
+    name: "G".into(),
+    type_ref: None,
+    params: vec![("a".to_string(), Some("string".to_string()))],
+    knowledge: vec![],
+    logic: Expr::Context(vec![(Some("p".to_string()), None, inner_plain.clone()), (None, None, s("a"))]),
+  });
+  for (name, logic, _) in &cases {
+    m.decisions.push(dmn::Decision {
+      name: name.to_string(),
+      type_ref: None,
+      requires: dmn::Requires { inputs: vec!["a".into(), "b".into()], decisions: vec![], knowledge: if *name == "N6" { vec!["G".into()] } else { vec![] } },
+      logic: Some(logic.clone()),
+    });
+  }
+  let xml = m.to_xml();
+  cnt.models.fetch_add(1, Ordering::Relaxed);
+  let me = match dmntk_model::parse(&xml).map_err(|e| e.to_string()).and_then(|d| ModelEvaluator::new(&d).map_err(|e| e.to_string())) {
+    Ok(me) => me,
+    Err(e) => {
+      run.violation("nested-contexts:model-does-not-load", &format!("generated well-formed model is rejected: {}", e), json!({"engine":"dmn","xml":xml,"invocable":"","ctx":[],"expected":"(model loads)"}));
+      return 1;
+    }
+  };
+  let pairs: Vec<(String, String)> = vec![("a".into(), "x".into()), ("b".into(), "y".into())];
+  let ctx = ctx_of(&pairs);
+  for (name, _, want) in &cases {
+    let got = crate::rval::show_value_full(&me.evaluate_invocable(name, &ctx));
+    cnt.evals.fetch_add(1, Ordering::Relaxed);
+    cnt.compared.fetch_add(1, Ordering::Relaxed);
+    cnt.nontrivial.fetch_add(1, Ordering::Relaxed);
+    if got != *want {
+      run.violation(
+        &format!("nested-contexts:{}", name),
+        &format!("decision `{}` (a boxed context nested in a boxed context, an inner entry named like an outer name) with {} gives {} but its logic gives {}", name, ctx_text(&pairs), got, want),
+        json!({"engine":"dmn","xml":xml,"invocable":name,"ctx":pairs.iter().map(|(k,v)| json!([k,v])).collect::<Vec<_>>(),"expected":want}),
+      );
+    }
+  }
+  1
+}
+
 pub fn run() {
   let run = Run::new("C04");
   let thorough = run.thorough();
@@ -1291,6 +1358,7 @@ pub fn run() {
   // family 3: simultaneous bindings of boxed invocations, sequential entries of boxed contexts
   n_graphs += family_bindings(&run, &cnt, thorough);
   n_graphs += family_parameter_types(&run, &cnt);
+  n_graphs += family_nested_contexts(&run, &cnt);
   // family 2: decision services
   for (scheme, names) in [("plain", &PLAIN), ("colliding-names", &COLLIDING)] {
     if scheme != "plain" && !thorough {
